@@ -330,7 +330,8 @@ class Tr:
             return self.bindings[rid]
         if kind == 'EnumConstantDecl':
             et = rd['type']['qualType']
-            self.ctx.need_enums.add((et, name))
+            if et != '_MM_CMPINT_ENUM':      # Intel-defined predicate constants: fixed values in model/simd.h
+                self.ctx.need_enums.add((et, name))
             return 'E_%s_%s' % (re.sub(r'[^A-Za-z0-9]+', '_', et), name)
         if kind in ('FunctionDecl', 'CXXMethodDecl'):
             sig = rd['type']['qualType']
@@ -446,6 +447,8 @@ class Tr:
         if ck in ('IntegralCast', 'BitCast', 'NullToPointer', 'PointerToIntegral', 'IntegralToPointer',
                   'BooleanToSignedIntegral'):
             ct = self.ctype_of(n)
+            if ct.c in ('m128i_t', 'm512i_t'):
+                return self.e(sub)       # bit cast between vector types of the same width: same byte-lane struct in the model
             return '((%s)(%s))' % (ct.c, self.e(sub))
         if ck == 'ToVoid':
             return '((void)(%s))' % self.e(sub)
